@@ -121,6 +121,8 @@ pub fn expectation(input: &[u8]) -> Vec<Expected> {
         .map(|line| match crate::par::guard(|| parser.parse(line, true)) {
             Ok(Ok(ais::AisFragments::Complete(s))) => Expected::Stdout(format!("{:?}", s.message)),
             Ok(Ok(ais::AisFragments::Incomplete(_))) => Expected::Nothing,
+            #[allow(unreachable_patterns)]
+            Ok(Ok(_)) => Expected::Nothing,
             // a library error OR a library panic: the line is rejected (C01 judges the panic)
             Ok(Err(_)) | Err(_) => Expected::Stderr,
         })
